@@ -63,6 +63,13 @@ def check_lead(name, start, end, offset):
     except Exception as e:
         chain_rev = None
         msgs.append("%s chain from an explicit contract list raised %r" % (name, e))
+    # a SPARSER listing with the same first contract (every other contract), living in the same process and asked at the same instants
+    cs_sparse = list(cs)[::2]
+    try:
+        chain_sparse = FutureChain(contracts=list(cs_sparse), month=offset) if len(cs_sparse) > offset + 1 else None
+    except Exception as e:
+        chain_sparse = None
+        msgs.append("%s chain from an explicit (every other contract) list raised %r" % (name, e))
     import pandas as _pd
     for now in sorted(pts):
         want = ref_lead(cs, now, offset)
@@ -82,6 +89,10 @@ def check_lead(name, start, end, offset):
             if chain_rev is not None and chain_rev.lead_contract(now).symbol != want.symbol:
                 msgs.append("%s chain built from a reversed contract list resolves %s at %s, expected %s"
                             % (name, chain_rev.lead_contract(now).symbol, now, want.symbol))
+            want_sp = ref_lead(cs_sparse, now, offset) if chain_sparse is not None else None
+            if want_sp is not None and chain_sparse.lead_contract(now) is not want_sp:
+                msgs.append("%s chain listing every other contract resolves %s at %s (asked right after the full chain), expected %s"
+                            % (name, chain_sparse.lead_contract(now).symbol, now, want_sp.symbol))
             if chain.lead_contract(_pd.Timestamp(now)).symbol != want.symbol:
                 msgs.append("%s chain: lead_contract(pandas.Timestamp(%s)) = %s, expected %s"
                             % (name, now, chain.lead_contract(_pd.Timestamp(now)).symbol, want.symbol))
